@@ -23,6 +23,18 @@ EXT_FILE = "c15_ext.bin"  # written into the run's scratch cwd by the harness (p
 EXT_BLOB = bytes((i * 37 + 11) % 256 for i in range(256))
 CUSTOM = "c15.custom"
 CUSTOM2 = "c15.custom.second"
+REPL = "c15.repl"  # domain of an op that has NO model-local function: `replace_functions` is given its expansion
+
+
+def triple_function(opset: int) -> onnx.FunctionProto:
+    """Expansion handed to replace_functions for the `c15.repl::Triple` call (never a model-local function)."""
+    fn = helper.make_function(
+        REPL, "Triple", ["X"], ["Y"],
+        [helper.make_node("Add", ["X", "X"], ["x2"], name="r_add1"), helper.make_node("Add", ["x2", "X"], ["Y"], name="r_add2")],
+        [helper.make_opsetid("", opset)],
+    )
+    fn.doc_string = "expansion of Triple"
+    return fn
 LOCAL = "c15.local"
 
 # ---------------------------------------------------------------------------------- exotic tensors
@@ -199,6 +211,19 @@ def gen_model(rng, *, opset: int | None = None, features: dict | None = None, ex
         nodes.append(helper.make_node("ReduceMax", [cur], ["rm"], name="n_reducemax", keepdims=1))
         nodes.append(helper.make_node("Add", [cur, "rm"], ["rma"], name="n_rma"))
         cur = "rma"
+    # -- initializers with more than 1000 elements (the C-API fallback strips and re-attaches such payloads),
+    #    plain or also listed as a graph input (an overridable default)
+    big = opt("big_initializer", choices=["none", "none", "none", "plain", "input", "input"])
+    if big != "none":
+        vals = [((i * 37) % 101 - 50) / 8.0 for i in range(1100)]
+        inits.append(helper.make_tensor("big_w", TP.FLOAT, [275, 4], np.array(vals, dtype=np.float32).tobytes(), raw=True))
+        nodes.append(helper.make_node("ReduceMean", ["big_w"], ["big_m"], name="n_bigmean", keepdims=0))
+        nodes.append(helper.make_node("Add", [cur, "big_m"], ["big_a"], name="n_bigadd"))
+        cur = "big_a"
+    # -- a call to an op of a domain without model-local function (what replace_functions expands)
+    if opt("repl_call", 0.35):
+        nodes.append(helper.make_node("Triple", [cur], ["tr"], domain=REPL, name="n_triple"))
+        cur = "tr"
     # -- a Constant node holding a tensor attribute (tensor name '' as exporters emit it, or named, with doc/metadata)
     sink_extra = []
     ct = opt("const_tensor_node", choices=["none", "none", "anon", "named"])
@@ -318,6 +343,8 @@ def gen_model(rng, *, opset: int | None = None, features: dict | None = None, ex
         inputs.append(helper.make_tensor_value_info("flag", TP.BOOL, []))
     if opt("initializer_as_input", 0.25):
         inputs.append(helper.make_tensor_value_info("w1", TP.FLOAT, [4]))
+    if f.get("big_initializer") == "input":
+        inputs.append(helper.make_tensor_value_info("big_w", TP.FLOAT, [275, 4]))
     outputs = [helper.make_tensor_value_info("y", TP.FLOAT, [N, 4])]
     if has_sink:
         outputs.append(helper.make_tensor_value_info("sink_out", TP.FLOAT, None))
@@ -379,6 +406,8 @@ def gen_model(rng, *, opset: int | None = None, features: dict | None = None, ex
     opsets = [helper.make_opsetid("", opset)]
     if has_sink:
         opsets.append(helper.make_opsetid(CUSTOM, 1))
+    if f.get("repl_call"):
+        opsets.append(helper.make_opsetid(REPL, 1))
     if f.get("second_custom_domain"):
         opsets.append(helper.make_opsetid(CUSTOM2, 2))
     if functions:
